@@ -1,4 +1,5 @@
 import ElexModel.Core.Loops
+import ElexModel.Gen.C13
 import Mathlib.Data.List.Basic
 
 /-!
@@ -129,5 +130,37 @@ example : reads (trace [0, 1] [7] [3, 4]) (fun _ => none) = [(3, 0, 7, some 0), 
   decide
 example : reads ([Op.write 3 0, Op.write 3 1, Op.read 3 0 7, Op.read 3 1 7]) (fun _ => none) = [(3, 0, 7, some 1), (3, 1, 7, some 1)] := by
   decide
+
+end ElexModel.Loops
+
+/-! ### bridge: the loop nest as it is in `/repo/src` on this run -/
+
+namespace ElexModel.Loops
+
+/-- **the loop nest of `ModelClient.get_estimates`, as translated from the source on this run, performs exactly the cache
+    writes and reads of the model's `trace`** (unit intervals of level `alpha` stored under `alpha`; aggregate intervals
+    receive the unit intervals stored under their own level) -/
+theorem bridge_client_trace (ests levels alphas : List ℕ) : Gen.C13.client_trace ests levels alphas = trace ests levels alphas := by
+  have h : ∀ (l : List ℕ) (f : ℕ → Op), (l.flatMap fun a => [f a]) = l.map f := by
+    intro l f
+    induction l with
+    | nil => rfl
+    | cons a t ih => simp [List.flatMap_cons, ih]
+  unfold Gen.C13.client_trace trace
+  simp only [h]
+
+theorem bridge_results_handler_adds : Gen.C13.results_handler_adds =
+    ["self.results_handler.add_unit_predictions(estimand, unit_predictions)",
+     "self.results_handler.add_unit_intervals(estimand, alpha_to_unit_prediction_intervals)",
+     "self.results_handler.add_unit_turnout_predictions(unit_turnout_predictions)",
+     "self.results_handler.add_agg_predictions(estimand, aggregate, estimates_df, alpha_to_agg_prediction_intervals)"] := rfl
+
+/-- the gaussian model's caches are keyed by the interval level only — written by the unit-interval call, read by the
+    aggregate-interval call (this is the `Cache` of the model) -/
+theorem bridge_gaussian_cache : Gen.C13.gaussian_cache_uses =
+    ["get_aggregate_prediction_intervals: load self.alpha_to_nonreporting_lower_bounds[alpha]",
+     "get_aggregate_prediction_intervals: load self.alpha_to_nonreporting_upper_bounds[alpha]",
+     "get_unit_prediction_intervals: store self.alpha_to_nonreporting_lower_bounds[alpha]",
+     "get_unit_prediction_intervals: store self.alpha_to_nonreporting_upper_bounds[alpha]"] := rfl
 
 end ElexModel.Loops
